@@ -867,6 +867,29 @@ def walkDirOp (c : Cfg) (fs : FS) (tr : Text → Text) (root : Text) : Option (L
   | .err e => some [{ path := root, isDir := false, err := some e }]
   | _ => some []
 
+/-! ## hard-link groups as a host file system shows them (the disk half of `DirFS`) -/
+
+/-- number of directory entries that refer to node `i`: the link count (`st_nlink`) of a regular file on a
+POSIX file system.  (Go's own `linkCount` field — `Inode.nlink` — is bookkeeping that nothing reads.) -/
+def FS.edgesTo (fs : FS) (i : Ino) : Nat :=
+  (fs.nodes.map fun n => (n.children.filter (fun e => e.2 = i)).length).sum
+
+/-- is the node a regular file (no type bit, not a directory)? -/
+def Inode.isRegular (n : Inode) : Bool := !n.dir && (n.mode &&& modeType) = 0
+
+/-- What `os.Lstat` / `os.SameFile` / `Nlink` / `os.ReadFile` of the disk paths of `names` must show for a
+directory-backed file system whose state is `fs`: for every name that is a regular file, the index of the first
+name of the list that is the same inode, the number of names the inode has, and its bytes. -/
+def linkView (c : Cfg) (fs : FS) (names : List Text) : List (Option (Nat × Nat × Text)) :=
+  let inos : List (Option Ino) := names.map fun p =>
+    match getNode c fs p with
+    | .ok i => if (fs.node i).isRegular then some i else none
+    | .error _ => none
+  inos.map fun oi =>
+    match oi with
+    | none => none
+    | some i => some (inos.findIdx (· = some i), fs.edgesTo i, (fs.node i).data)
+
 /-- SubFS: every method joins the root to its path(s); a symlink's target is data, not a path of
 the view, and stays as given -/
 def subOp (root : Text) : Op → Op
